@@ -4,7 +4,7 @@ _t = csrc.Tree()
 _sy = [f.name for f in _t.by_file[csrc.REPO + "/src/lowlevel/bidib_lowlevel_system.c"]]
 _st = [f.name for f in _t.by_file[csrc.REPO + "/src/state/bidib_state.c"]]
 UNITS = [
-    Unit(name="C20.sys_reset_order", src="units/C20/startup.c", defines=["VP_H_RESET"], functions=["bidib_send_sys_reset", "bidib_send_get_pkt_capacity", "bidib_send_sys_enable"], props=["C20"], no_dfcc=True,
+    Unit(name="C20.sys_reset_order", src="units/C20/startup.c", defines=["VP_H_RESET"], functions=["bidib_send_sys_reset", "bidib_send_get_pkt_capacity", "bidib_send_sys_enable"], props=["C20", "C05"], no_dfcc=True,
          remove_bodies=[f for f in _sy if f not in ("bidib_send_sys_reset", "bidib_send_get_pkt_capacity", "bidib_send_sys_enable")], extra_flags=["--nondet-static", "--unwind", "19"], covers=1, min_obligations=6,
          stubbed_contracts=["<15 callees of bidib_send_sys_reset, each an event-recording contract>"], note="loop-free: complete"),
     Unit(name="C20.board_features", src="units/C20/startup.c", defines=["VP_H_FEATURES"], functions=["bidib_state_set_board_features"], props=["C20"], no_dfcc=True,
